@@ -310,6 +310,9 @@ fn run_binary(any: &str, home: &std::path::Path, mode: &str, q: &str, secs: u64)
         "describe_after" => {
             cmd.arg("--describe").arg("--").arg(q);
         }
+        "syntax" => {
+            cmd.arg("--syntax").arg("--").arg(q);
+        }
         _ => {
             cmd.arg("--").arg(q);
         }
@@ -361,6 +364,7 @@ pub fn cli(args: &[String]) -> i32 {
     let any = arg_value(args, "--any").expect("--any");
     let ids = arg_value(args, "--ids").map(|p| Ids::load(&p));
     let modes4 = args.iter().any(|a| a == "--modes4");
+    let forced = arg_value(args, "--mode");
     let home = private_home("c19");
     let db = Db::open().expect("on-disk database in the private directory");
     let queries: Vec<String> = read_lines(&inp).iter().map(|l| serde_json::from_str::<String>(l).unwrap_or_else(|_| l.clone())).collect();
@@ -370,7 +374,7 @@ pub fn cli(args: &[String]) -> i32 {
     spec.limit = 12;
     spec.exponent_limit = 12;
     for (qi, q) in queries.iter().enumerate() {
-        let mode = if modes4 { ["default", "exact", "describe", "describe_after"][qi % 4] } else { ["default", "exact", "describe"][qi % 3] };
+        let mode = if let Some(m) = &forced { m.as_str() } else if modes4 { ["default", "exact", "describe", "describe_after"][qi % 4] } else { ["default", "exact", "describe"][qi % 3] };
         let describe_mode = mode == "describe" || mode == "describe_after";
         // the binary first, under a deadline: a query it never returns from is not evaluated in process (it would hang here too)
         let (stdout, stderr, code, timed_out) = run_binary(&any, &home, mode, q, 20);
@@ -415,8 +419,14 @@ pub fn cli(args: &[String]) -> i32 {
             }
         }
         n += 1;
+        // for the syntax dump: the characters (names of Lexer.tla) and how `{:?}` spells each of them inside a string
+        let (src, dbg) = if mode == "syntax" {
+            (crate::lang::char_names(q), q.chars().map(|c| { let s = format!("{:?}", c.to_string()); s[1..s.len() - 1].to_string() }).collect::<Vec<_>>())
+        } else {
+            (Vec::new(), Vec::new())
+        };
         out.line(&json!({"id": n, "text": q, "mode": mode, "results": results, "descs": descs, "lib_panic": o.panic.clone().unwrap_or_default(),
-                         "lib_parse_error": o.parse_error.clone().unwrap_or_default(),
+                         "src": src, "dbg": dbg, "lib_parse_error": o.parse_error.clone().unwrap_or_default(),
                          "stdout": stdout.lines().collect::<Vec<_>>(), "stderr": stderr.lines().take(5).collect::<Vec<_>>(), "exit": code}));
     }
     out.finish();
